@@ -474,9 +474,11 @@ impl FieldParser {
         input: &[u8],
         template: Template,
     ) -> IResult<&[u8], Vec<BTreeMap<usize, V9FieldPair>>> {
+        // A template whose fields add up to zero bytes cannot delimit records.
         let record_count = input
             .len()
-            .saturating_div(usize::from(template.get_total_size()));
+            .checked_div(usize::from(template.get_total_size()))
+            .ok_or_else(|| NomErr::Error(NomError::new(input, ErrorKind::Verify)))?;
 
         let (remaining, fields) = (0..record_count).fold(
             (input, Vec::new()), // Initial accumulator: (fields, remaining)
